@@ -43,6 +43,15 @@ CLAIMED["C19"] = dict(cat="other", technique="call-argument role agreement (reso
    note="Trusted: clang front end, isa-extract, sympy, documented std::queue/vector semantics; alias table main-variable -> parameter role (12 entries, in the rule file). "
         "One genuine defect found and repaired (F1). Noise statistics/spectrum not decided.",
    ref="DESIGN.md §3 C19")
+CLAIMED["C13"] = dict(cat="other", technique="exhaustive option-table analysis (boost::program_options declarations read off the AST) against the writer's type chain, skip list and substitutions; dominance on the CFG",
+   text="Enumerates every option declared in the ProgramOptions constructor (72 declarations) and decides for each: its value type is one the "
+        ".cfg writer emits (typeid chain, string fallback, per-element vector branch), it is not skipped unless it is a compatibility name, the name "
+        "written is accepted by the config-file description with the same bound field and type, a substituted constant (alpha0=0) is written only "
+        "when main does not use the option, floating values are written after the precision was raised to max_digits10, and the save precedes the "
+        "results file on every path. Exhaustive over the table, so a new or retyped option that the writer would drop is reported.",
+   note="Trusted: clang front end, isa-extract, documented boost::program_options semantics (not analysed). Three genuine defects repaired "
+        "(alpha0 substitution, precision, BunchCurrent), two recorded as known findings (ForceOpenGLVersion type, run_anyway skipped).",
+   ref="DESIGN.md §3 C13")
 NOT_YET = "check not built yet in this round (static rule designed in DESIGN.md §3, not implemented)"
 NA = {}
 
